@@ -65,7 +65,9 @@ TRUSTED = [
     "wins), `np.ix_` on boolean vectors (= their nonzero() indices), `np.dot` with the scalar 1.0, `np.any(gmo, 0)`, "
     "pandas `.iloc[rows, :0].reset_index()` are modelled (setCols / takeIdx / dotU / anyCols) and correspondence-checked; "
     "matrix entries are small integers so that every float64 product is exact; RuntimeWarnings (got / goq absent) are "
-    "not compared; harness/props/c18_tran.py computes the oracle's reference displacements from the defining relations "
+    "not compared; on the nas2cam files of pyYeti's tests the matrices are floats: the driver runs the same model over "
+    "exact rationals (entries sent as n/2^k) and the result is compared to 1e-9 of its largest entry; "
+    "harness/props/c18_tran.py computes the oracle's reference displacements from the defining relations "
     "u_o = GOT u_t + GOQ u_q, u_m = GM u_n, u_s = 0 level by level (never through formtran or the Lean model)",
     "the `[id, dof]` rows compared by locate.mat_intersect inside formtran are two-element integer lists in the driver "
     "(lexicographic order); the theorems are stated for every linearly ordered row type",
@@ -148,8 +150,9 @@ PARTIAL = (
     "formtran-se0-gset-repeated-dof. formulvs / formdrm / addulvs are proved as products / rows / stored entries of "
     "formtran levels (formulvs_chain_is_product: left-to-right product along the tree path; associativity of the list "
     "matrix product, i.e. ULVS(a->c) = ULVS(a->b) ULVS(b->c), is checked by the oracle only). usetprt: the returned "
-    "table is proved (usetprt_table_is_partition_listing), the printed text is not modelled. nas2cam files of pyYeti's "
-    "tests hold non-integer matrices: the matrix routines are not compared on them. Float / mixed int-float inputs are "
+    "table is proved (usetprt_table_is_partition_listing), the printed text is not modelled. On the nas2cam files of "
+    "pyYeti's tests (non-integer matrices) the matrix routines are compared numerically (model over exact rationals, "
+    "1e-9 of the largest entry), not exactly. Float / mixed int-float inputs are "
     "dyadic (k/4) and modelled over scaled Int; non-dyadic floats (rounding in tol*max, correlate, abs(diff) <= tol) "
     "are outside the exact model"
 )
@@ -180,7 +183,7 @@ MANIFEST = {
     "find_xyz_triples on inexact data (tolerance rule) is tied numerically (exact pv, coordinates / scales to 1e-9) but "
     "not proved; the m-set rows of the residual's pha branch are located, not expanded; associativity of the list matrix "
     "product (ULVS(a->c) = ULVS(a->b) ULVS(b->c)) is checked by the oracle only; the printed text of usetprt is not "
-    "modelled; matrix routines are not compared on the (non-integer) nas2cam test files",
+    "modelled; on the (non-integer) nas2cam test files the matrix routines are compared to 1e-9, not exactly",
     "technique": "Lean 4 proof about executable models + ast translator for mkusetmask + exact differential "
     "correspondence + model-free oracle",
 }
@@ -363,6 +366,11 @@ def _uset_streams(ctx, cs):
         r = _call(n2p.mkusetmask, spec)
         cs.add("mask", "mask " + (spec if spec else "+"), "ok %d" % r[1] if r[0] == "ok" else r[0],
                {"nasset": spec}, branch="mask:" + ("combo" if r[0] == "ok" else r[0]))
+    # repeated names, members contained in other members, regrouping: the expression is a union
+    for spec in ["b+b", "a+b", "b+a", "a+b+a", "t+b+r", "l+c", "f+a", "g+m", "d+e", "q+b", "b+q", "u1+u1+b", "p+p"]:
+        r = _call(n2p.mkusetmask, spec)
+        cs.add("mask", "mask " + spec, "ok %d" % r[1] if r[0] == "ok" else r[0], {"nasset": spec},
+               branch="mask:repeated-or-overlapping")
     if not all(k in masks for k in NAMED + USER):
         return masks  # the table lost a documented key: the mask stream / build already shows it
 
@@ -895,6 +903,54 @@ def _tran_streams(ctx, cs, masks):
                {"rows": rows, "nasset": nas_, "printsets": ps}, nontrivial=r[0] == "ok" and r[1] is not None, branch=br)
 
 
+def _tran_real_stream(ctx, cs):
+    """formtran / formulvs / formdrm on the nas2cam files of pyYeti's own tests (non-integer matrices: the model runs
+    over exact rationals, the matrices are compared to 1e-9 of their largest entry, shapes / output DOF / exception
+    kinds exactly)"""
+    import warnings
+    from props import c18_nas as N, c18_tran as T
+
+    n2p, _ = _mods()
+    rng = ctx.rng
+    nmask = {k: int(v) for k, v in n2p.mkusetmask().items()}
+    for name, nas0 in N.real_dictionaries(ctx.repo, matrices=True):
+        nas = {k: v for k, v in nas0.items() if k != "ulvs"}
+        secs = N.serialize(nas) + " | " + T.mats_sections_q(nas)
+        ses = sorted({int(r_[0]) for r_ in np.asarray(nas["selist"]).tolist()})
+        with warnings.catch_warnings():
+            warnings.simplefilter("ignore")
+            for se in ses:
+                u = nas["uset"][se]
+                keys = [(int(i), int(d)) for (i, d) in u.index.tolist()]
+                words = [int(w) for w in u["nasset"].values.tolist()]
+                for want in ("m", "o", "a", "s", "any"):
+                    pool = [k for k, w in zip(keys, words) if want == "any" or (w & nmask[want])]
+                    pool = [k for k, w in zip(keys, words) if k in pool and (w & nmask["g"])]
+                    if not pool:
+                        continue
+                    rows_ = [list(rng.choice(pool)) for _ in range(rng.randint(1, 3))]
+                    if want == "any":
+                        rows_.append(list(rng.choice(keys)))
+                    sec = " ".join(str(v) for r_ in rows_ for v in r_)
+                    gset = se == 0 and rng.random() < 0.3
+                    r = _call(n2p.formtran, nas, se, rows_, gset)
+                    cs.add("formtran-real", "qftran %d %d 2 | %s | %s" % (se, gset, secs, sec), r,
+                           {"file": name, "se": se, "dof": rows_, "gset": gset}, nontrivial=r[0] == "ok",
+                           branch="formtran-real:" + (("set-" + want) if r[0] == "ok" else r[0]))
+                if se != 0:
+                    for kc in (True, False):
+                        r = _call(n2p.formulvs, nas, se, 0, kc, False, False)
+                        cs.add("formulvs-real", "qfulvs %d 0 %d 0 0 | %s" % (se, kc, secs), r,
+                               {"file": name, "seup": se, "keepcset": kc}, nontrivial=r[0] == "ok",
+                               branch="formulvs-real:" + r[0])
+                    rows_ = [list(rng.choice(keys)) for _ in range(2)]
+                    sec = " ".join(str(v) for r_ in rows_ for v in r_)
+                    r = _call(n2p.formdrm, nas, se, rows_, 0, False)
+                    cs.add("formdrm-real", "qfdrm %d 0 0 2 | %s | %s" % (se, secs, sec), r,
+                           {"file": name, "seup": se, "dof": rows_}, nontrivial=r[0] == "ok", branch="formdrm-real:" + r[0])
+        ctx.count("tran-real-dictionary")
+
+
 def _canon_slice(r):
     if r[0] != "ok":
         return r[0]
@@ -1390,6 +1446,7 @@ def correspondence(ctx):
         _makeuset_xyz_stream(ctx, cs, masks)
         _nas_streams(ctx, cs)
         _tran_streams(ctx, cs, masks)
+        _tran_real_stream(ctx, cs)
     _locate_streams(ctx, cs)
     _index_streams(ctx, cs)
     _xyz_stream(ctx, cs)
@@ -1405,6 +1462,14 @@ def correspondence(ctx):
             ctx.count("stream:" + stream)
             if not _xyz_match(impl, got_c):
                 ctx.disagree(stream, inp, impl, got_c[:600])
+            continue
+        if stream in ("formtran-real", "formulvs-real", "formdrm-real"):
+            from props import c18_tran as T_
+
+            ctx.case(line[:300] + str(len(line)), nontrivial=nontriv, branch=branch)
+            ctx.count("stream:" + stream)
+            if not T_.match_q(impl, got, with_dof=stream != "formulvs-real"):
+                ctx.disagree(stream, inp, impl[0] if impl[0] != "ok" else "a matrix (float64)", " ".join(got.split())[:300])
             continue
         ctx.case(line, nontrivial=nontriv, branch=branch)
         ctx.count("stream:" + stream)
@@ -1426,7 +1491,7 @@ def correspondence(ctx):
     if ctx.disagreements:
         return  # the tie is broken already; branch labels taken from the implementation's outcome may be missing
     ctx.require_branches([
-        "mask:key", "mask:combo", "mask:key-error",
+        "mask:key", "mask:combo", "mask:key-error", "mask:repeated-or-overlapping",
         "mksetpv:ok", "mksetpv:proper-subset", "mksetpv:value-error", "mksetpv:key-error",
         "expanddof:1d", "expanddof:2d", "expanddof:value-error",
         "mkdofpv:found-all", "mkdofpv:dropped-some", "mkdofpv:value-error", "mkdofpv:empty-set",
@@ -1463,6 +1528,8 @@ def correspondence(ctx):
         "formulvs:index-error", "formdrm:same-se", "formdrm:downstream", "formdrm:value-error", "formdrm:stored-ulvs",
         "addulvs:new", "addulvs:existing-entry", "addulvs:shortcut-keeps-stored",
         "usetprt:all-rows", "usetprt:rows-dropped", "usetprt:none",
+        "tran-real-dictionary", "formtran-real:set-m", "formtran-real:set-o", "formtran-real:set-a",
+        "formulvs-real:ok", "formdrm-real:ok",
     ] + (["findse:absent", "findse:once", "findse:repeated"] if ctx.extra["private_helpers_present"]["_findse"] else [])
       + (["nodeids:one-per-node", "nodeids:fewer"] if ctx.extra["private_helpers_present"]["_get_node_ids"] else [])
       + ["nas-damage:" + w for w in __import__("props.c18_nas", fromlist=["DAMAGES"]).DAMAGES])
@@ -2323,7 +2390,8 @@ def search(ctx, hints):
         _oracle_makeuset(ctx, inp)
         ctx.count("oracle:make_uset")
         _oracle_maskplus(ctx, "+".join(rng.sample(NAMED + USER, rng.randint(2, 4))))
-        ctx.count("oracle:maskplus")
+        _oracle_maskplus(ctx, "+".join(rng.choice(NAMED + USER) for _ in range(rng.randint(2, 4))))  # with repeats
+        ctx.count("oracle:maskplus", 2)
     # base stream 2c: upasetpv / upqsetpv on generated dictionaries (expected vectors known by construction)
     from props import c18_nas as N
     for it in range(ctx.pick(120, 1200)):
